@@ -1,6 +1,7 @@
 import KcpVerif.Model.Kcp
 import KcpVerif.Lemmas.KcpLive
 import KcpVerif.Lemmas.KcpProbe
+import KcpVerif.Lemmas.SysDrainSnd
 /-! C03 — a stalled reader throttles the sender and transfer resumes afterwards. -/
 namespace KcpVerif.Props
 open KcpVerif KcpVerif.Gen KcpVerif.Kcp KcpVerif.Live
@@ -380,5 +381,61 @@ theorem C03_probe_wait_reachable (conv : U32) (ops : List Op) (k : Kcp) (op : Op
   induction ops generalizing k0 with
   | nil => exact h0
   | cons op rest ih => rw [run_cons]; exact ih _ (hstep k0 op h0)
+
+/-! ### Tier 2, the safety half in the closed system (Model/Sys.lean), arbitrary histories
+
+`SysC.Cons` (Lemmas/SysDrainCons.lean) is the cross-endpoint consistency invariant for ARBITRARY
+histories of the one-directional system: genuine frames in flight, A's send buffer contiguous, B's
+`rcv_nxt` not beyond A's `snd_nxt`, B HAS (delivered, or holds in its reorder buffer) every segment
+below A's `snd_una`, every segment flagged `acked` at A, every entry of its own ack list and every ACK
+in flight.  It is preserved by the unfair network (`SysC.cons_shuffle`: any drop / duplication /
+reordering of what is in flight), by B's `Input` of any genuine datagram (`SysC.cons_dlvB`), by both
+flushes, `Send`, `Recv` and `tick`; the one event still open is A's `Input` on the repaired model
+(its per-frame core is `SysC.shrink_gen`). -/
+
+open KcpVerif.Sys KcpVerif.SysC in
+/-- **A throttled sender puts no new sequence number on the wire.**  In any consistent state in which A
+has learned a zero window (`rmt_wnd = 0`), a FULL flush of A admits nothing — `snd_nxt` and the send
+queue are unchanged — and every PUSH frame it writes carries a sequence number below the old
+`snd_nxt`: a retransmission.  (`NoWrap`: fewer than 2^31 segments so far.) -/
+theorem C03_closed_throttled_no_new_sn {p : Par} {s : State} {gab gba : GLink} (h : Cons p s gab gba)
+    (hnw : NoWrap p.base s) (h0 : s.A.rmt_wnd = 0) :
+    (Sys.step s .flushA).A.snd_nxt = s.A.snd_nxt ∧ (Sys.step s .flushA).A.snd_queue = s.A.snd_queue ∧
+    ∀ fr ∈ SysW.flushFrs s.A true (clk s.now), fr.cmd.toNat = IKCP_CMD_PUSH → o p.base fr.sn < o p.base s.A.snd_nxt := by
+  have hc := h.acon
+  have hfl : itimediff s.A.snd_nxt s.A.snd_una ≥ 0 := by
+    unfold NoWrap at hnw
+    have := itd p.base s.A.snd_nxt s.A.snd_una (by omega) (by have := hc.2; omega)
+    have := hc.2
+    omega
+  obtain ⟨_, _, t3, t4, _, _⟩ := C03_throttled_admits_nothing s.A true (clk s.now) h0 hfl
+  obtain ⟨_, _, _, _, _, _, g7⟩ := flush_gen p.base s.A (clk s.now) h.aK h.aack h.acon
+    (by rw [h.aconv]; exact h.atag) h.aq hnw
+  refine ⟨t4, t3, fun fr hfr hp => ?_⟩
+  have := (g7 fr hfr).2.2 hp
+  rw [t4] at this
+  exact this
+
+open KcpVerif.Sys KcpVerif.SysC in
+/-- **Nothing B has is ever dropped, and B acknowledges only what it has.**  For a receiver with nothing
+to send and ANY datagram of genuine frames from the sender (new, duplicate, old, out of order, beyond
+the window; `N` = the sender's `snd_nxt` as an offset): after `Input`'s parse loop `rcv_nxt` has not
+gone back and is not beyond `N`, every segment the receiver had (delivered or in the reorder buffer)
+it still has, and every entry of the ack list is an old entry or is for a segment it has now.  The
+same holds for `Recv` (`SysC.recv_rcvStep`). -/
+theorem C03_receiver_keeps_what_it_has (base : U32) (N : Nat) (hN : N < 2 ^ 31) (frs : List Wire.Frm) (k : Kcp)
+    (hsb : k.snd_buf = []) (hfr : ∀ fr ∈ frs, DataLike fr ∧ (fr.cmd.toNat = IKCP_CMD_PUSH → o base fr.sn < N))
+    (h2 : o base k.rcv_nxt ≤ N) (h3 : ∀ x ∈ k.rcv_buf, o base x.sn < N) :
+    RcvStep base N k (SysW.inFrs true frs { k := k }).k ∧ (SysW.inFrs true frs { k := k }).panic = false :=
+  ⟨(inFrs_rcv_gen base N hN frs { k := k } hsb hfr h2 h3 rfl).1, (inFrs_rcv_gen base N hN frs { k := k } hsb hfr h2 h3 rfl).2.1⟩
+
+/-- the full statement of the resume half (not proved): the reader of B pauses for any duration, every
+WASK / WINS / ACK datagram of a finite period is lost, then the reader resumes and the network is fair:
+A's backlog drains.  `Old.run` would refute it (the acked-head wedge); on the repaired model it is the
+general drain theorem restricted to histories of this shape. -/
+def C03_resume_full : Prop :=
+  ∀ (p : SysC.Par) (s : Sys.State) (gab gba : SysC.GLink), SysC.Cons p s gab gba →
+    ∃ T : Nat, ∀ evs : List Sys.Ev, (∀ ev ∈ evs, SysC.isSend ev = false) →
+      s.now + T ≤ (Sys.run s evs).now → (Sys.run s evs).A.waitSnd = 0
 
 end KcpVerif.Props
